@@ -63,7 +63,7 @@ class C11(Check):
     def run(self) -> None:
         mod = self.prog.module(MOD)
         gen = mod.func(GEN)
-        self.borrow("C06", ("S2", "S3", "S4", "S5", "S6", "S7", "S9", "S10", "S11", "S12", "S13"), "K7")
+        self.borrow("C06", ("S2", "S3", "S4", "S5", "S6", "S7", "S9", "S10", "S11", "S12", "S13", "S14"), "K7")
         # ---- K1: stores into the definition table
         table = "functions"
         # the table is created in the generator and handed down: per function, the local name(s) that denote it (fixpoint over call sites)
